@@ -508,6 +508,9 @@ func c15RandReq(r *h.Rand, rid, conn int, server bool) c15Req {
 				cnt++
 				if r.Chance(1, 5) {
 					a.S = "" // a handler may store the empty identifier: later items then see none
+				} else if r.Chance(1, 5) {
+					// identifiers are opaque text: surrounding white space is part of the value
+					a.S = []string{" " + a.S, a.S + "\n", "\t" + a.S + " ", "  ", a.S + " "}[r.Intn(5)]
 				}
 			case 5:
 				a.S = "+"
@@ -526,6 +529,8 @@ func c15RandReq(r *h.Rand, rid, conn int, server bool) c15Req {
 			sc.Out = c09Out{K: 2, RP: -1, E: []int{1, 1}}
 		case 1:
 			sc.Out = c09Out{K: 3, RP: -1, PV: 2}
+		case 2:
+			sc.Out = c09Out{K: 2, RP: -1, E: c09RandErr(r)} // typed, wrapped, plain and context errors
 		}
 		it.Script = sc
 		if !server && r.Chance(1, 10) {
